@@ -38,7 +38,7 @@ def cases(draw, loopless=False):
         pal = draw(st.sampled_from(["zero", "zero", "finite", "general"]))
         spec = draw(specs.model_spec(max_mets=5, max_rxns=8, min_rxns=1, families=("pathway", "pathway", "sparse"), palette=pal, gprs=False))
     n = len(spec["rxns"])
-    mode = draw(st.sampled_from(["none", "none", "objs", "ids", "mixed"]))
+    mode = draw(st.sampled_from(["none", "none", "objs", "ids", "mixed", "dictlist"]))
     sel = draw(st.lists(st.integers(0, max(0, n - 1)), min_size=1, max_size=max(1, n), unique=True)) if n else []
     return {
         "spec": spec,
@@ -96,6 +96,10 @@ def check_case(case, ctx):
         want_ids = [rids_all[i] for i in case["sel"]]
         if case["list_mode"] == "objs":
             arg = [model.reactions.get_by_id(r) for r in want_ids]
+        elif case["list_mode"] == "dictlist":  # e.g. model.exchanges or a slice/query of model.reactions
+            from cobra import DictList
+
+            arg = DictList(model.reactions.get_by_id(r) for r in want_ids)
         elif case["list_mode"] == "ids":
             arg = list(want_ids)
         else:
